@@ -240,6 +240,21 @@ HOSTILE = {'dict_hash_later': _dict_hash_later, 'class_prop_raises': ClassPropRa
            'slots_getattr': SlotsGetattrRuntime, 'getattribute': GetattributeRuntime, 'imposter_list': ImposterList,
            'len_raises_list': lambda: _LenRaisesList([1, 2]), 'args_raises': ArgsRaises,
            'args_not_iterable': ArgsNotIterable, 'dict_prop_raises': DictPropRaises, 'dict_not_mapping': DictNotMapping}
+class _Stop(BaseException):
+    pass
+
+
+class StrStops:
+    """str() raises a BaseException subclass: safe_str (except Exception) lets it through, the search is left"""
+
+    def __str__(self):
+        raise _Stop('stop')
+
+
+# objects on which an UNGUARDED probe of process_variable raises, with the text of the exception: the search ABORTS there
+# (Model/CollectorAbort.lean).  Nothing of such an object is probed by the walker.
+ABORTING = {'str_stops': (StrStops, 'stop'), 'meta_name': (WithHostileMeta, 'meta name')}
+ABORT_MSG = {cls: msg for cls, msg in ABORTING.values()}
 OUTSIDE = {'str_base_exception': StrBaseException}      # outside the claimed domain (BaseException from __str__)
 KIT_CLASSES = (Plain, Priv, Slotted, StrRaises, ReprRaises, LenRaises, GetattrAttrError, EqRaises, MyList, MyDict,
                MyError, SlotsGetattrRuntime, GetattributeRuntime, ImposterList, _LenRaisesList, ArgsRaises,
@@ -345,6 +360,8 @@ def build(specs):
             objs[i] = OUTSIDE[s['k']]()
         elif t == 'unmodelled':
             objs[i] = UNMODELLED[s['k']]()
+        elif t == 'aborting':
+            objs[i] = ABORTING[s['k']][0]()
         else:
             raise ValueError('unknown spec %r' % (s,))
         done[i] = True
@@ -425,6 +442,12 @@ def describe_heap(roots):
         o = order[i]
         i += 1
         t = type(o)
+        if t in ABORT_MSG:
+            # a search that reaches this object is left by an exception before anything of it is recorded
+            heap.append({'ty': '?', 'tyrepr': '?', 'dict': False, 'str': None, 'ph': '', 'cls': {'raises': ''},
+                         'len': {'raises': ''}, 'items': [], 'seq': {'raises': ''}, 'isexc': False, 'args': {'raises': ''},
+                         'hasdict': False, 'attrs': {'raises': ''}, 'aborts': ABORT_MSG[t]})
+            continue
         # str() of the built-in containers is not probed: it expands shared sub-structures as a tree (exponential in
         # DAG-shaped data) and the collector renders them by size; would the code start to use it, the model (which
         # then sees "raises") disagrees
@@ -543,6 +566,12 @@ def action_config(act, case):
     cfg = {}
     if act.get('max_ms') is not None:
         cfg['MAX_TP_PROCESS_TIME'] = act['max_ms']
+    if 'raw_max_ms' in act:
+        # budgets outside the domain of the model (not an int below 2^32): recorded only
+        r = act['raw_max_ms']
+        if isinstance(r, str):
+            r = r[4:] if r.startswith('str:') else {'float:nan': float('nan'), 'float:inf': float('inf'), 'none': None}[r]
+        cfg['MAX_TP_PROCESS_TIME'] = r
     for k, key in CFG_KEYS.items():
         if act['limits'].get(k) is not None:
             cfg[key] = act['limits'][k]
@@ -725,6 +754,8 @@ def _drive(case, objs, act_ids):
         src, line = host_source(case)
         glb = {'__name__': 'c05host'}
         exec(compile(src, HOST_FILE, 'exec'), glb)
+        for gname, gj in case.get('globals', []):
+            glb[gname] = objs[gj]          # module-level names of the host: reachable by watch expressions only
         actions = [LocationAction('tp%d' % i, case['actions'][i].get('condition'), action_config(case['actions'][i], case),
                                   LocationAction.ActionType.Snapshot) for i in act_ids]
         if case.get('one_trigger'):
@@ -1163,6 +1194,8 @@ class Ref:
     def render(self, o):
         """the complete text of a value, before truncation; None for exotic kinds."""
         t = type(o)
+        if t in ABORT_MSG:
+            return '<never rendered: a search that reaches this object aborts>'
         if t.__name__ in ITER_NAMES:
             return 'Iterator of type: %s' % t
         if t is dict or t in LIST_TYPES:
@@ -1522,6 +1555,41 @@ def gen_frame_locals(rng):
     return c
 
 
+K_ABORT = 'C07/aborted-watch-leaves-ids'
+
+
+def aborted_watch_case(case):
+    """structural: an object that aborts a search is bound to a module-level name, and in some action an expression that
+    mentions that name is followed by another watch / log field"""
+    bad = [n for n, j in case.get('globals', []) if case['objs'][j]['t'] == 'aborting']
+    for a in case['actions']:
+        exprs = [e for _, e in watch_exprs(a)]
+        if any(b in e for b in bad for e in exprs[:-1]):
+            return True
+    return False
+
+
+def gen_aborted(rng):
+    """a watch / log field whose collection ABORTS part-way (its value reaches an object on which an unguarded probe raises),
+    followed by watches that reach objects the aborted one had already given ids to (recorded finding K_ABORT)."""
+    c = gen_case(rng, nobj=rng.choice([3, 6, 10]), watches=False, stream='aborted-watch',
+                 frame_type=rng.choice(['no_frame', 'single_frame', 'single_frame']))
+    specs = c['objs']
+    specs.append({'t': 'str', 'v': 'shared value'})
+    specs.append({'t': 'list', 'e': [len(specs) - 1, 0]})
+    sh = len(specs) - rng.choice([1, 2])
+    specs.append({'t': 'aborting', 'k': rng.choice(['str_stops', 'str_stops', 'meta_name'])})
+    c['globals'] = [['SH', sh], ['BAD', len(specs) - 1]]
+    first = rng.choice(['[SH, BAD]', '[SH, BAD]', '(SH, [BAD])', '{"a": SH, "b": BAD}', '[BAD, SH]', '[[SH], BAD, 1000]'])
+    later = rng.sample(['SH', '[SH]', '(SH, SH)', '"fresh" + "text"', 'SH'], rng.randint(1, 3))
+    if rng.random() < 0.25 and not any(ch in first + ''.join(later[:1]) for ch in '{}"'):
+        c['actions'][0]['log'] = 'first={%s} then={%s}' % (first, later[0])
+        c['actions'][0]['watches'] = later[1:]
+    else:
+        c['actions'][0]['watches'] = [first] + later
+    return c
+
+
 def gen_huge(rng):
     """one HUGE mapping (10 001 … 30 000 entries — mappings are not capped by the collection limit) reachable from the frame
     while other values still wait in the search: as an early local, or as an attribute of the first local, followed by
@@ -1820,8 +1888,8 @@ def judge_identity(case, obs, live, ai, s):
                        for c in e['children']]
                 want = [(n, ref.render(t)[:lim['str']]) for n, _, t in ks][:len(got)]
                 for i_, c in enumerate(e['children'][:len(want)]):
-                    if (c[0] is None or int(c[0]) not in table) and any(ks[i_][2] is d for d in live['frames_locals']):
-                        got[i_] = want[i_]        # reported above as a dangling reference to a frame's locals dict
+                    if c[0] is None or int(c[0]) not in table:
+                        got[i_] = want[i_]        # a child without entry: reported above (check_kids -> resolves), once
                 if got != want:
                     v.append(f'watch {expr!r} -> id {k}: children {got[:4]} do not describe the value {want[:4]}')
                 else:
